@@ -44,11 +44,33 @@ fn compl_runs(log: &mut Log, case: &mut u64) {
             let n = rng.range(1, 120) as usize;
             texts.push(if i % 2 == 0 { rng.seq(n, iupac) } else { rng.seq(n, &all) });
         }
-        for t in &texts {
+        for (ti, t) in texts.iter().enumerate() {
             log.call("revcomp", json!({"t": bytes(t)}), || {
                 let v = if mol == "dna" { alphabets::dna::revcomp(t) } else { alphabets::rna::revcomp(t) };
                 json!({ "v": v })
             });
+            if ti % 3 == 0 {
+                log.call("revcomp_variants", json!({"t": bytes(t)}), || {
+                    let half = t.len() / 2;
+                    let v: Vec<Vec<u8>> = if mol == "dna" {
+                        vec![
+                            alphabets::dna::revcomp(t.iter().cloned()),
+                            alphabets::dna::revcomp(t.clone()),
+                            alphabets::dna::revcomp(t.iter().filter(|_| true)),
+                            alphabets::dna::revcomp(t[..half].iter().chain(t[half..].iter())),
+                        ]
+                    } else {
+                        vec![
+                            alphabets::rna::revcomp(t.iter().cloned()),
+                            alphabets::rna::revcomp(t.clone()),
+                            alphabets::rna::revcomp(t.iter().filter(|_| true)),
+                            alphabets::rna::revcomp(t[..half].iter().chain(t[half..].iter())),
+                        ]
+                    };
+                    json!({ "v": v })
+                });
+                log.oblige("revcomp_input_iterators_by_value_and_inexact_hints");
+            }
         }
     }
 }
@@ -124,6 +146,60 @@ fn alpha_run(log: &mut Log, rng: &mut Rng, syms: &[u8]) {
             log.call("transform", json!({"t": bytes(&t)}), || json!({"v": rt.transform(&t)}));
         }
     }
+    // the alphabet from other kinds of iterators, a clone, insert in another order
+    log.call("new_variants", json!({}), || {
+        let mut ins = Alphabet::new(Vec::<u8>::new());
+        for &b in syms.iter().rev() {
+            ins.insert(b);
+        }
+        let v: Vec<Vec<usize>> = vec![
+            symbols_of(&Alphabet::new(syms.iter().cloned())),
+            symbols_of(&Alphabet::new(syms.to_vec())),
+            symbols_of(&Alphabet::new(syms.iter().chain(syms.iter().rev()))),
+            symbols_of(&Alphabet::new(syms.iter().filter(|_| true))),
+            symbols_of(&Alphabet::new(syms.iter().flat_map(|b| vec![*b, *b]))),
+            symbols_of(&alpha.clone()),
+            symbols_of(&ins),
+        ];
+        json!({ "v": v })
+    });
+    log.oblige("alphabet_from_iterators_with_duplicates_and_inexact_hints");
+    // a rank transform of the alphabet collected from a text, and copies of the rank transform
+    if !syms.is_empty() {
+        let n = rng.range(1, 50) as usize;
+        let t = rng.seq(n, syms);
+        log.call("ranks_via_text", json!({"t": bytes(&t)}), || {
+            let rt2 = RankTransform::new(&Alphabet::new(&t));
+            let v: Vec<u8> = t.iter().map(|&a| rt2.get(a)).collect();
+            json!({ "v": v })
+        });
+        log.oblige("ranktransform_of_alphabet_from_text");
+        let n = rng.range(0, 40) as usize;
+        let mut w = rng.seq(n, syms);
+        if rng.coin() && n > 0 {
+            w[n / 2] = *rng.pick(&all);
+        }
+        log.call("word_variants", json!({"t": bytes(&w)}), || {
+            let wv: Vec<u8> = vec![
+                alpha.is_word(w.iter().cloned()) as u8,
+                alpha.is_word(w.clone()) as u8,
+                alpha.is_word(w.iter().filter(|_| true)) as u8,
+                alpha.clone().is_word(&w) as u8,
+            ];
+            let mut tr: Vec<Vec<u8>> = vec![];
+            if alpha.is_word(&w) {
+                let rt_clone = rt.clone();
+                let text = serde_json::to_string(&rt).expect("serialize");
+                let rt_serde: RankTransform = serde_json::from_str(&text).expect("deserialize");
+                tr.push(rt.transform(w.iter().cloned()));
+                tr.push(rt_clone.transform(w.iter().filter(|_| true)));
+                tr.push(rt_serde.transform(&w));
+                tr.push(RankTransform::new(&rt.alphabet()).transform(&w));
+            }
+            json!({"w": wv, "tr": tr})
+        });
+        log.oblige("alphabet_and_ranktransform_copies_and_input_kinds");
+    }
     // set operations with a second alphabet
     let k = rng.range(0, 12) as usize;
     let mut other: Vec<u8> = (0..k).map(|_| *rng.pick(&all)).collect();
@@ -132,6 +208,25 @@ fn alpha_run(log: &mut Log, rng: &mut Rng, syms: &[u8]) {
             other.push(*rng.pick(syms));
         }
     }
+    let third: Vec<u8> = (0..rng.range(0, 6)).map(|_| *rng.pick(&all)).collect();
+    log.call("setops_orders", json!({"other": bytes(&other), "third": bytes(&third)}), || {
+        let b = Alphabet::new(&other);
+        let c = Alphabet::new(&third);
+        let mut ins = Alphabet::new(Vec::<u8>::new());
+        for &x in syms.iter().rev() {
+            ins.insert(x);
+        }
+        let mut ins2 = alpha.clone();
+        for &x in other.iter() {
+            ins2.insert(x);
+        }
+        json!({"uab": symbols_of(&alpha.union(&b)), "uba": symbols_of(&b.union(&alpha)),
+               "iab": symbols_of(&alpha.intersection(&b)), "iba": symbols_of(&b.intersection(&alpha)),
+               "u3a": symbols_of(&alpha.union(&b).union(&c)), "u3b": symbols_of(&alpha.union(&b.union(&c))),
+               "ins": symbols_of(&ins), "ins2": symbols_of(&ins2),
+               "dab": symbols_of(&alpha.difference(&b)), "dba": symbols_of(&b.difference(&alpha))})
+    });
+    log.oblige("alphabet_set_operations_in_both_orders");
     log.call("setops", json!({"other": bytes(&other)}), || {
         let b = Alphabet::new(&other);
         json!({"u": symbols_of(&alpha.union(&b)), "i": symbols_of(&alpha.intersection(&b)),
@@ -254,6 +349,25 @@ pub fn drive(log: &mut Log) {
             });
             if t.len() % 3 != 0 {
                 log.oblige("gc3_len_not_multiple_of_3");
+            }
+            if t.len() % 4 == 1 {
+                log.call("gc_variants", json!({"t": bytes(t)}), || {
+                    let g: Vec<i64> = vec![
+                        fixed(gc::gc_content(t.iter().cloned())).0,
+                        fixed(gc::gc_content(t.clone())).0,
+                        fixed(gc::gc_content(t.iter().filter(|_| true))).0,
+                        fixed(gc::gc_content(t.chunks(3).flat_map(|c| c.iter()))).0,
+                        fixed(gc::gc_content(t.iter().take_while(|_| true))).0,
+                    ];
+                    let g3: Vec<i64> = vec![
+                        fixed(gc::gc3_content(t.iter().cloned())).0,
+                        fixed(gc::gc3_content(t.clone())).0,
+                        fixed(gc::gc3_content(t.iter().filter(|_| true))).0,
+                        fixed(gc::gc3_content(t.chunks(2).flat_map(|c| c.iter()))).0,
+                    ];
+                    json!({"g": g, "g3": g3})
+                });
+                log.oblige("gc_input_iterators_by_value_and_inexact_hints");
             }
         }
     }
